@@ -20,6 +20,7 @@ import binascii
 import hashlib
 import json
 import signal
+import os
 import sys
 import threading
 from typing import Any, Iterable
@@ -171,6 +172,8 @@ def tensor_tokens_of_proto(t: onnx.TensorProto, meta: dict | None = None) -> tup
                        None if "length" not in ent else int(ent["length"])]
         except ValueError as e:
             raise OutsideModel("external entry not an integer (real code raises)") from e
+        if (payload[1] is not None and payload[1] < 0) or (payload[2] is not None and payload[2] < 0):
+            raise OutsideModel("external offset / length negative (real code raises)")
         return _tensor_token("external", t.data_type, t.dims, doc, meta, payload)
     if t.data_type == onnx.TensorProto.STRING:
         return _tensor_token("string", t.data_type, t.dims, doc, meta, [binascii.hexlify(x).decode() for x in t.string_data])
@@ -711,9 +714,30 @@ _FILE_EVENTS = ("open", "os.open", "os.listdir", "os.scandir", "os.stat", "os.mk
                 "os.lstat", "os.access")
 
 
+# The stat family raises NO audit event in CPython (os.stat, os.lstat, os.access, os.readlink,
+# os.path.exists / getsize / realpath ...): these are caught by counting wrappers installed in the `os`
+# and `posixpath` modules while the audit is armed (os.path.* and pathlib look the functions up in the
+# `os` module at call time).
+_STAT_FUNCS = ("stat", "lstat", "access", "readlink", "scandir", "listdir", "statvfs", "getxattr", "listxattr")
+_PATH_FUNCS = ("realpath",)
+
+
+def _is_import_machinery(path: str) -> bool:
+    """a source / byte-code / extension file of the interpreter or of an installed package: a lazy
+    `import` inside a library function reads these in a freshly forked worker (not a file access of
+    the library on behalf of the proto)"""
+    if not isinstance(path, str):
+        return False
+    if not path.endswith((".py", ".pyc", ".so", ".pth")) and "__pycache__" not in path:
+        return False
+    roots = {sys.prefix, sys.base_prefix, getattr(sys, "exec_prefix", sys.prefix)}
+    return any(path.startswith(r) for r in roots if r) or "site-packages" in path
+
+
 class FileAudit:
-    """Records file-system audit events raised while `armed` (one process-wide hook; audit hooks
-    cannot be removed, so the hook is installed once and switched)."""
+    """Records file-system accesses while `armed`: the audit events CPython raises (one process-wide
+    hook; audit hooks cannot be removed, so the hook is installed once and switched) AND calls of the
+    stat family, which raises no audit event (counting wrappers, installed for the duration)."""
 
     _installed = False
     _armed = False
@@ -721,32 +745,68 @@ class FileAudit:
     _tid: int | None = None
 
     @classmethod
-    def _hook(cls, event, args):
-        if cls._armed and threading.get_ident() == cls._tid and event.startswith(_FILE_EVENTS):
+    def _record(cls, event, arg):
+        if cls._armed and threading.get_ident() == cls._tid:
             cls._armed = False  # formatting may itself touch files
             try:
-                cls._events.append((event, repr(args[:1])[:120]))
+                try:
+                    path = os.fspath(arg) if isinstance(arg, (str, bytes, os.PathLike)) else arg
+                    if isinstance(path, bytes):
+                        path = path.decode("utf-8", "replace")
+                except Exception:  # noqa: BLE001
+                    path = arg
+                if not _is_import_machinery(path):
+                    cls._events.append((event, repr(path)[:120]))
             finally:
                 cls._armed = True
 
+    @classmethod
+    def _hook(cls, event, args):
+        if cls._armed and event.startswith(_FILE_EVENTS):
+            cls._record(event, args[0] if args else None)
+
+    def _wrap(self, module, name, label):
+        orig = getattr(module, name, None)
+        if orig is None:
+            return
+
+        def wrapper(*a, **kw):
+            FileAudit._record("stat-family:" + label, a[0] if a else kw.get("path"))
+            return orig(*a, **kw)
+
+        wrapper.__wrapped__ = orig
+        setattr(module, name, wrapper)
+        self._patched.append((module, name, orig))
+
     def __enter__(self):
+        import posixpath
+
         cls = FileAudit
         if not cls._installed:
             sys.addaudithook(cls._hook)
             cls._installed = True
         cls._events = []
         cls._tid = threading.get_ident()
+        self._patched: list = []
+        for name in _STAT_FUNCS:
+            self._wrap(os, name, "os." + name)
+        for name in _PATH_FUNCS:
+            self._wrap(posixpath, name, "os.path." + name)
         cls._armed = True
         return self
 
     def __exit__(self, *exc):
         FileAudit._armed = False
+        for module, name, orig in reversed(self._patched):
+            setattr(module, name, orig)
+        self._patched = []
         self.events = list(FileAudit._events)
         return False
 
 
 class TimeLimit:
-    """wall-clock limit (SIGALRM; main thread of a worker process)"""
+    """limit on the CPU time of this process (ITIMER_PROF: user + system time, so that a loaded machine
+    does not produce spurious expiries) plus a generous wall-clock backstop (6x); main thread of a worker"""
 
     class Expired(BaseException):
         pass
@@ -758,13 +818,17 @@ class TimeLimit:
         raise TimeLimit.Expired()
 
     def __enter__(self):
-        self._old = signal.signal(signal.SIGALRM, self._raise)
-        signal.setitimer(signal.ITIMER_REAL, self.seconds)
+        self._old_prof = signal.signal(signal.SIGPROF, self._raise)
+        self._old_alrm = signal.signal(signal.SIGALRM, self._raise)
+        signal.setitimer(signal.ITIMER_PROF, self.seconds)
+        signal.setitimer(signal.ITIMER_REAL, self.seconds * 6)
         return self
 
     def __exit__(self, *exc):
+        signal.setitimer(signal.ITIMER_PROF, 0)
         signal.setitimer(signal.ITIMER_REAL, 0)
-        signal.signal(signal.SIGALRM, self._old)
+        signal.signal(signal.SIGPROF, self._old_prof)
+        signal.signal(signal.SIGALRM, self._old_alrm)
         return False
 
 
@@ -1344,6 +1408,10 @@ class IsoChecker:
                     ta[1] = tsh
             self.eq(ta, tb, w + ".type/shape/doc")
             self.eq(dict(a.metadata_props), dict(b.metadata_props), w + ".metadata_props")
+            if not where.startswith("function"):
+                # quantization annotations live in GraphProto.quantization_annotation (FunctionProto has none)
+                self.eq(dict(a.meta.get("quant_parameter_tensor_names") or {}),
+                        dict(b.meta.get("quant_parameter_tensor_names") or {}), w + ".quantization_annotation")
             self.eq([a.is_graph_input(), a.is_graph_output(), a.is_initializer()],
                     [b.is_graph_input(), b.is_graph_output(), b.is_initializer()], w + ".flags")
             if a.is_initializer():
